@@ -300,6 +300,9 @@ func (e *Engine) findIntercept(fn *ssa.Function, name string) Handler {
 	if os.Getenv("SYMGO_NO_SUMMARY") != "" && strings.HasSuffix(name, "vaa.VAAID).Bytes") {
 		return nil
 	}
+	if i := strings.Index(name, "/pkg/zzverif."); i >= 0 {
+		name = name[i+5:]
+	}
 	if h, ok := exact[name]; ok {
 		return h
 	}
